@@ -250,3 +250,92 @@ func VerifC13_JSONNumber() {
 	y, isNum := JSONToXValue([]byte(back.Native())).(*XNumber)
 	zzverif.Assert(isNum && y.Native().Equal(want), "a number does not survive its JSON form")
 }
+
+func verifTextOf(v XValue) (string, bool) {
+	t, ok := v.(*XText)
+	if !ok {
+		return "", false
+	}
+	return t.Native(), true
+}
+
+// VerifC13_JSONText: text inside JSON. (a) A text value a·c·b with an
+// arbitrary byte c below 0x80 (control characters, DEL, quote, backslash,
+// '<', '&') or one of a menu of multi-byte characters (accents, line
+// separator, emoji and a non-printing character beyond the BMP, BOM), alone,
+// as an object property next to another one, and as an array item, written by
+// ToXJSON (json()) and read back by JSONToXValue (parse_json) is the same
+// text in the same structure. (b) A JSON document whose string uses a
+// \uXXXX escape, an escaped surrogate pair or the short escapes, read and
+// written back and read again, gives the text the document denotes.
+// cover: control-character, multi-byte, alone, in-object, in-array, escaped-document
+func VerifC13_JSONText() {
+	if zzverif.Choice("from-document", 2) == 1 {
+		docs := []struct{ doc, text string }{
+			{`{"msg":"a\u0001b","ok":"fine"}`, "a\x01b"}, {`{"msg":"\u000b","ok":"fine"}`, "\v"}, {`{"msg":"\u007f","ok":"fine"}`, "\x7f"},
+			{`{"msg":"😀","ok":"fine"}`, "\U0001F600"}, {`{"msg":"󠀁","ok":"fine"}`, "\U000E0001"},
+			{`{"msg":"\b\f\n\r\t\"\\\/","ok":"fine"}`, "\b\f\n\r\t\"\\/"}, {`{"msg":"\u2028é","ok":"fine"}`, "\u2028é"},
+		}
+		d := docs[zzverif.Choice("document", len(docs))]
+		zzverif.Cover("escaped-document")
+		obj, isObj := JSONToXValue([]byte(d.doc)).(*XObject)
+		zzverif.Assert(isObj, "a JSON object was not read as an object")
+		back, xerr := ToXJSON(obj)
+		zzverif.Assert(xerr == nil, "an object read from JSON could not be written back as JSON")
+		again, isObj := JSONToXValue([]byte(back.Native())).(*XObject)
+		zzverif.Assert(isObj && again.Count() == 2, "an object written back as JSON lost or gained properties")
+		msg, _ := again.Get("msg")
+		ok, _ := again.Get("ok")
+		mt, isText := verifTextOf(msg)
+		ot, isText2 := verifTextOf(ok)
+		zzverif.Assert(isText && isText2 && mt == d.text && ot == "fine", "a JSON document written back is not equivalent to the original")
+		return
+	}
+	var s string
+	if zzverif.Choice("multi-byte", 2) == 1 {
+		menu := []string{"é", "\u2028", "\U0001F600", "\U000E0001", "\ufeff", "\u0085"}
+		s = "a" + menu[zzverif.Choice("character", len(menu))] + "b"
+		zzverif.Cover("multi-byte")
+	} else {
+		c := zzverif.Byte("character")
+		zzverif.Assume(c < 0x80)
+		if c < 0x20 || c == 0x7f {
+			zzverif.Cover("control-character")
+		}
+		s = "a" + string([]byte{c}) + "b"
+	}
+	var v XValue
+	shape := zzverif.Choice("shape", 3)
+	switch shape {
+	case 0:
+		v = NewXText(s)
+		zzverif.Cover("alone")
+	case 1:
+		v = NewXObject(map[string]XValue{"msg": NewXText(s), "ok": NewXText("fine")})
+		zzverif.Cover("in-object")
+	default:
+		v = NewXArray(NewXText("fine"), NewXText(s))
+		zzverif.Cover("in-array")
+	}
+	j, xerr := ToXJSON(v)
+	zzverif.Assert(xerr == nil, "a text value could not be written as JSON")
+	back := JSONToXValue([]byte(j.Native()))
+	var got XValue
+	switch shape {
+	case 0:
+		got = back
+	case 1:
+		obj, isObj := back.(*XObject)
+		zzverif.Assert(isObj && obj.Count() == 2, "an object written as JSON reads back with other properties")
+		got, _ = obj.Get("msg")
+		ok, _ := obj.Get("ok")
+		ot, isText := verifTextOf(ok)
+		zzverif.Assert(isText && ot == "fine", "an object written as JSON reads back with another property value")
+	default:
+		arr, isArr := back.(*XArray)
+		zzverif.Assert(isArr && arr.Count() == 2, "an array written as JSON reads back with another length")
+		got = arr.Get(1)
+	}
+	gt, isText := verifTextOf(got)
+	zzverif.Assert(isText && gt == s, "a text value does not survive its JSON form")
+}
